@@ -358,19 +358,24 @@ inductive WorldOp
 def setEntry (w : World) (c : ClassId) (e : Entry) : World :=
   { w with classes := (c, e) :: w.classes }
 
+/-- the effects of evaluating the class BODY (`Field[U]`, `Array[U]`, `StructureReference(...)` run
+    before `StructMeta.__new__`): implicit wrappers are registered and the inline-class counter is
+    bumped even when the class statement then raises -/
+def bodyW (cfg : Config) (w : World) (src : ClassSrc) : World :=
+  { w with wrappers := (resolveFields cfg w.wrappers src.fields).1,
+           srCounter := w.srCounter + totalInlines src.fields }
+
 def defineW (cfg : Config) (w : World) (c : ClassId) (src : ClassSrc) : World × Obs :=
   match alookup c w.classes with
   | some _ => (w, Obs.none)                       -- identities are never reused
   | none =>
     match lookupParent w.classes src.parent with
-    | none => (w, Obs.none)                       -- parent not defined: the class statement raises
+    | none => (w, Obs.none)                       -- parent not defined: NameError before the body runs
     | some pe =>
-      if baseSigClash w.flags src pe then (w, Obs.none) else
-      let e := elabClass cfg w src pe
-      ({ w with classes := (c, e) :: w.classes,
-                wrappers := (resolveFields cfg w.wrappers src.fields).1,
-                srCounter := w.srCounter + totalInlines src.fields },
-       { Obs.ok with clash := (resolveFields cfg w.wrappers src.fields).2 != src.fields })
+      if baseSigClash w.flags src pe then (bodyW cfg w src, Obs.none)   -- the metaclass raises after the body ran
+      else
+        ({ bodyW cfg w src with classes := (c, elabClass cfg w src pe) :: w.classes },
+         { Obs.ok with clash := (resolveFields cfg w.wrappers src.fields).2 != src.fields })
 
 /-- the class `create_serializer(cls)` writes `serialize` / `_created_fast_serializer` onto -/
 def installTarget (cfg : Config) (c : ClassId) (e : Entry) : ClassId :=
